@@ -651,6 +651,8 @@ def sx_call(f, *args, **kw):
     if r is not sm.NO_MODEL:
         return r
 
+    if f in PASS_NATIVE:
+        return f(*args, **kw)
     if _isinstance(f, _type):
         if issubclass(f, BaseException):
             return f(*args, **kw)
